@@ -425,6 +425,14 @@ def main():
     if harness_ok and driver_ok:
         try:
             lines = gen_ops.generate(prop, seed, tier, WORK)
+            if tier == "thorough":
+                # deepen the sampled parts: several independent generator rounds (exhaustive parts de-duplicate)
+                seen = set(lines)
+                for extra in range(1, cfg.get("thorough_rounds", 8)):
+                    for l in gen_ops.generate(prop, seed * 1000 + extra, tier, WORK):
+                        if l not in seen:
+                            seen.add(l)
+                            lines.append(l)
             corpus = os.path.join(ROOT, "corpus", f"{prop}.ops")
             if os.path.exists(corpus):
                 lines = [l.strip() for l in open(corpus) if l.strip() and not l.startswith("#")] + lines
